@@ -205,11 +205,16 @@ def untrack (cfg : Cfg) (s0 : State) (c : Nat) : State × Ret :=
   let s := { s0 with shared := upd s0.shared c none, failed := upd s0.failed c false }
   enqueue cfg s (pinCid c) .unpin
 
+/-- the pin `recoverWithPinInfo` re-issues: the one recorded in the shared pinset (fix 2bbdb46), `PinCid` if absent -/
+def recPin (s : State) (c : Nat) : PinSpec :=
+  match s.shared c with
+  | some p => p
+  | none => pinCid c
+
 /-- `recoverWithPinInfo` -/
 def recoverWith (cfg : Cfg) (s : State) (c : Nat) (st : Status) : State × Ret :=
   match st with
-  | .pinError | .unexpectedlyUnpinned =>
-    enqueue cfg s (match s.shared c with | some p => p | none => pinCid c) .pin
+  | .pinError | .unexpectedlyUnpinned => enqueue cfg s (recPin s c) .pin
   | .unpinError => enqueue cfg s (pinCid c) .unpin
   | _ => (s, .nil)
 
@@ -303,6 +308,16 @@ def stepRet (cfg : Cfg) (s : State) : Ev → State × Ret
 def step (cfg : Cfg) (s : State) (e : Ev) : State := (stepRet cfg s e).1
 
 def run (cfg : Cfg) (s : State) (es : List Ev) : State := es.foldl (step cfg) s
+
+/-- run a list of events; none as soon as an instruction is refused with ErrFullQueue -/
+def runOk (cfg : Cfg) : State → List Ev → Option State
+  | s, [] => some s
+  | s, e :: es => if (stepRet cfg s e).2 = .full then none else runOk cfg (stepRet cfg s e).1 es
+
+/-- a recover round with IPFS healthy: recover instructions, worker steps, and daemon calls that succeed -/
+def healthyEv : Ev → Bool
+  | .recover _ | .deqPin | .deqUnpin | .effect _ | .retOk _ | .reap _ => true
+  | _ => false
 
 /-- states the tracker can be in: any interleaving of instructions, worker steps, daemon steps and faults -/
 inductive Reachable (cfg : Cfg) : State → Prop
